@@ -139,6 +139,18 @@ def run(E: Engine, rep: Report, tier: str) -> dict:
         a = [arg(c, i, n_) for i, n_ in ((1, "amp_on"), (2, "detuning_on"), (3, "detuning_off"))]
         ok = all(x is not None for x in a) and mentions(a[0], "amp_on") and not mentions(a[0], "detuning_on") and mentions(a[1], "detuning_on") and not mentions(a[1], "amp_on") and any(t[0] == "call" and t[1] == ("attr", ("name", "self"), "_process_eom_parameters") for t in sym.subterms(a[2]))
         rep.check(ok, "FLOW", f"Sequence.{nm}|passes-setpoint-to-scheduler", "(amp_on, detuning_on, computed detuning_off) handed to the scheduler in that order", f"{nm} hands {[sh(x, 50) for x in a]} to _Schedule.enable_eom", E.where(m_, c.node))
+    # modify_eom_setpoint corrects the phase reference by: drift at the OLD setpoint until the buffer starts, plus drift
+    # at the NEW setpoint until the buffer ends (the buffer is played at the new off-detuning; counting it twice or
+    # not at all leaves a residual phase)
+    mes = E.method(SEQ, "modify_eom_setpoint")
+    pcs = [l for l in S(E, mes, inline=False).calls("_phase_shift") if l.fn == mes.short]
+    if not pcs:
+        raise AnalysisError("anchor: modify_eom_setpoint no longer calls _phase_shift")
+    for l in pcs:
+        a0 = arg(l, 0)
+        m = has(a0, "Q_old.calc_phase_drift(Q_b.ti) + Q_new.calc_phase_drift(Q_b.tf)") if a0 is not None else None
+        ok = m is not None and mentions(m["Q_old"], "_get_last_eom_pulse_phase_drift") and unobj(m["Q_new"])[0] == "call" and unobj(m["Q_new"])[1] == ("name", "_PhaseDriftParams") and is_(m["Q_b"], "self._last(channel)") is not None
+        rep.check(ok, "FLOW", "Sequence.modify_eom_setpoint|old-drift-until-buffer-start+new-drift-until-buffer-end", "old.calc_phase_drift(buffer.ti) + new.calc_phase_drift(buffer.tf)", f"the phase correction of modify_eom_setpoint is `{sh(a0, 200)}`: it must be the old setpoint's drift up to the start of the buffer plus the new setpoint's drift up to its end", E.where(mes, l.node))
     # who may build drift parameters: the two methods that open a block (drift counted from the buffer start) and the
     # one helper that looks up the last EOM pulse; every correction of an *elapsed* drift goes through that helper
     ctor_sites = set()
